@@ -4,7 +4,11 @@
 //! Enumerated (see `enumerate`, `runner_cases`): fault point (8 fault kinds; statement position x
 //! cycle x flavour for program faults) x fault policy x watchdog action x safe-state map x driver
 //! set, plus a slice over observers x image layout x restart mode x an unappliable (wildcard) map
-//! entry; and a small family that runs the real resource thread (`ResourceRunner::spawn`) so that
+//! entry, plus a slice over the relation of the output image to the safe state at fault time
+//! (opposite everywhere else; already-safe / partially-safe set by the programs in the faulting
+//! cycle, by `io_mut().write` or by a queued debug I/O write) x the fault kinds after which a
+//! driver can hold an older image than the runtime (publish error of driver 1 of 2, faults that
+//! precede the next publish, watchdog_timeout()/simulation_fault() between cycles); and a small family that runs the real resource thread (`ResourceRunner::spawn`) so that
 //! the scheduler's own reaction (real watchdog overrun, scripted simulation fault) is covered.
 //!
 //! Oracle (exactly the clauses of the statement, see `check_rt` / `check_safe` / `check_runner`):
@@ -29,7 +33,8 @@
 //! Signatures: `C08/latch/<kind>`; `C08/safe-image|safe-delivery/<entry point>/none-applied|
 //! none-delivered` (nothing of the map there), `.../missing:<shapes>` (part of the map there),
 //! `.../after-failing-driver`, `.../unappliable-entry-*` (a configuration feature explains it),
-//! `.../second-fault/<entry point>`; `C08/order/...`; `C08/refusal/<clause>` and `C08/restart/...`
+//! `.../second-fault/<entry point>`, `.../image-already-safe|image-partially-safe/<entry point>`
+//! (fails only in that image-relation stratum); `C08/order/...`; `C08/refusal/<clause>` and `C08/restart/...`
 //! carry no fault kind (the gate is common); the first refusal anomaly ends a case.
 //!
 //! Images are decoded with the subject's own pure `IoInterface::read` (byte order of the process
@@ -79,15 +84,17 @@ struct Shape {
     prog: char,
     decl: &'static str,
     assign: &'static str,
+    /// assignment of the safe value itself (image relation "already-safe" / "partially-safe")
+    assign_safe: &'static str,
 }
 
 const SHAPES: [Shape; 6] = [
-    Shape { addr: "%QX0.0", tag: "X", safe_text: "TRUE", safe: 1, opposite: 0, prog: 'A', decl: "q0 AT %QX0.0 : BOOL;", assign: "q0 := FALSE;" },
-    Shape { addr: "%QX0.7", tag: "X", safe_text: "FALSE", safe: 0, opposite: 1, prog: 'B', decl: "q7 AT %QX0.7 : BOOL;", assign: "q7 := TRUE;" },
-    Shape { addr: "%QB1", tag: "B", safe_text: "0xA5", safe: 0xA5, opposite: 0x5A, prog: 'A', decl: "qb AT %QB1 : BYTE;", assign: "qb := BYTE#16#5A;" },
-    Shape { addr: "%QW2", tag: "W", safe_text: "0xA55A", safe: 0xA55A, opposite: 0x5AA5, prog: 'B', decl: "qw AT %QW2 : WORD;", assign: "qw := WORD#16#5AA5;" },
-    Shape { addr: "%QD4", tag: "D", safe_text: "0xDEADBEEF", safe: 0xDEAD_BEEF, opposite: 0x2152_4110, prog: 'C', decl: "qd AT %QD4 : DWORD;", assign: "qd := DWORD#16#21524110;" },
-    Shape { addr: "%QL8", tag: "L", safe_text: "0xFEDCBA9876543210", safe: 0xFEDC_BA98_7654_3210, opposite: 0x0123_4567_89AB_CDEF, prog: 'C', decl: "ql AT %QL8 : LWORD;", assign: "ql := LWORD#16#0123456789ABCDEF;" },
+    Shape { addr: "%QX0.0", tag: "X", safe_text: "TRUE", safe: 1, opposite: 0, prog: 'A', decl: "q0 AT %QX0.0 : BOOL;", assign: "q0 := FALSE;", assign_safe: "q0 := TRUE;" },
+    Shape { addr: "%QX0.7", tag: "X", safe_text: "FALSE", safe: 0, opposite: 1, prog: 'B', decl: "q7 AT %QX0.7 : BOOL;", assign: "q7 := TRUE;", assign_safe: "q7 := FALSE;" },
+    Shape { addr: "%QB1", tag: "B", safe_text: "0xA5", safe: 0xA5, opposite: 0x5A, prog: 'A', decl: "qb AT %QB1 : BYTE;", assign: "qb := BYTE#16#5A;", assign_safe: "qb := BYTE#16#A5;" },
+    Shape { addr: "%QW2", tag: "W", safe_text: "0xA55A", safe: 0xA55A, opposite: 0x5AA5, prog: 'B', decl: "qw AT %QW2 : WORD;", assign: "qw := WORD#16#5AA5;", assign_safe: "qw := WORD#16#A55A;" },
+    Shape { addr: "%QD4", tag: "D", safe_text: "0xDEADBEEF", safe: 0xDEAD_BEEF, opposite: 0x2152_4110, prog: 'C', decl: "qd AT %QD4 : DWORD;", assign: "qd := DWORD#16#21524110;", assign_safe: "qd := DWORD#16#DEADBEEF;" },
+    Shape { addr: "%QL8", tag: "L", safe_text: "0xFEDCBA9876543210", safe: 0xFEDC_BA98_7654_3210, opposite: 0x0123_4567_89AB_CDEF, prog: 'C', decl: "ql AT %QL8 : LWORD;", assign: "ql := LWORD#16#0123456789ABCDEF;", assign_safe: "ql := lsafe;" },
 ];
 const FULL_MASK: u8 = 0b11_1111;
 /// an entry the config loader accepts but that can never be written (wildcard address)
@@ -125,7 +132,10 @@ fn fault_stmt(flavor: &str) -> &'static str {
 /// PA.tfb) and one un-tasked program PC; every program calls FUNCTION F and an FB1 instance, FB1
 /// calls F again (nested).  `cyc` is latched from %IW0, which the logging driver fills with its
 /// read-call count, so the program itself knows the cycle number.  Every statement bumps a counter.
-pub fn program_text(fault: Option<(&str, &str, u32)>, bind: bool) -> String {
+///
+/// `safe_in`: `(cycle, shape mask)` — in that cycle the programs write the SAFE value to the bound
+/// outputs of the mask instead of the opposite one (image relation already-/partially-safe).
+pub fn program_text(fault: Option<(&str, &str, u32)>, bind: bool, safe_in: Option<(u32, u8)>) -> String {
     let mut ins: BTreeMap<&str, String> = BTreeMap::new();
     if let Some((site, flavor, c)) = fault {
         let stmt = fault_stmt(flavor);
@@ -147,7 +157,9 @@ pub fn program_text(fault: Option<(&str, &str, u32)>, bind: bool) -> String {
     }
     let at = |slot: &str| ins.get(slot).cloned().unwrap_or_default();
     let locals = "  dz : INT := 0;\n  arr : ARRAY[0..3] OF INT;\n  p : REF_TO INT;\n";
-    let ext = "VAR_EXTERNAL cyc : INT; zero : INT; big : INT; nf : INT; rc : INT; END_VAR\n";
+    // `lsafe` holds the LWORD safe value (no literal above 16#7FFF_FFFF_FFFF_FFFF is accepted by the
+    // compiler); the harness stores it into the global before the first cycle
+    let ext = "VAR_EXTERNAL cyc : INT; zero : INT; big : INT; nf : INT; rc : INT; lsafe : LWORD; END_VAR\n";
     let mut s = String::new();
     s.push_str("FUNCTION F : INT\nVAR_INPUT caller : INT; END_VAR\n");
     s.push_str(ext);
@@ -165,10 +177,15 @@ pub fn program_text(fault: Option<(&str, &str, u32)>, bind: bool) -> String {
         }
         s.push_str(locals);
         let mut assigns = String::new();
-        for sh in SHAPES.iter().filter(|sh| sh.prog == p) {
+        for (i, sh) in SHAPES.iter().enumerate().filter(|(_, sh)| sh.prog == p) {
             if bind {
                 s.push_str(&format!("  {}\n", sh.decl));
-                assigns.push_str(sh.assign);
+                match safe_in {
+                    Some((c, m)) if m & (1 << i) != 0 => {
+                        assigns.push_str(&format!("IF cyc = {c} THEN {} ELSE {} END_IF;", sh.assign_safe, sh.assign));
+                    }
+                    _ => assigns.push_str(sh.assign),
+                }
                 assigns.push('\n');
             }
         }
@@ -186,7 +203,7 @@ pub fn program_text(fault: Option<(&str, &str, u32)>, bind: bool) -> String {
         s.push_str("END_PROGRAM\n\n");
     }
     s.push_str(
-        "CONFIGURATION Conf\nVAR_GLOBAL\n  cyc AT %IW0 : INT;\n  zero : INT := 0;\n  big : INT := 9;\n  nf : INT := 0;\n  trig : BOOL := FALSE;\nEND_VAR\nVAR_GLOBAL RETAIN\n  rc : INT := 0;\nEND_VAR\n\
+        "CONFIGURATION Conf\nVAR_GLOBAL\n  cyc AT %IW0 : INT;\n  zero : INT := 0;\n  big : INT := 9;\n  nf : INT := 0;\n  trig : BOOL := FALSE;\n  lsafe : LWORD;\nEND_VAR\nVAR_GLOBAL RETAIN\n  rc : INT := 0;\nEND_VAR\n\
          TASK TA (INTERVAL := T#10ms, PRIORITY := 0);\nTASK TB (INTERVAL := T#10ms, PRIORITY := 1);\nTASK TE (SINGLE := trig, PRIORITY := 2);\n\
          PROGRAM PA WITH TA : ProgA (tfb WITH TB);\nPROGRAM PB WITH TB : ProgB;\nPROGRAM PC : ProgC;\nEND_CONFIGURATION\n",
     );
@@ -278,9 +295,46 @@ struct Case {
     /// 0 = all drivers are logging drivers; d = driver d is the shipped `ModbusTcpDriver`
     /// (on_error = fault) pointed at a closed loopback port, so every exchange fails
     real: u8,
+    /// relation of the output image to the safe state at the moment of the fault:
+    /// 0 opposite (no configured value is there), 1 already-safe (every configured value is
+    /// there), 2 partially-safe (every second configured entry is there)
+    rel: u8,
+    /// how the image got that way: 0 n/a, 1 the programs wrote the safe values in the faulting
+    /// cycle, 2 `io_mut().write` after the last publish, 3 debug I/O write queued before the
+    /// faulting cycle
+    via: u8,
 }
 
+const REL: [&str; 3] = ["opposite", "already-safe", "partially-safe"];
+const VIA: [&str; 4] = ["none", "program", "io_mut", "debug"];
+
 impl Case {
+    /// which shapes hold their safe value before the safe state is applied
+    fn safe_set(&self) -> u8 {
+        match self.rel {
+            1 => self.mask,
+            2 => {
+                let mut m = 0u8;
+                for (k, i) in (0..SHAPES.len()).filter(|i| self.mask & (1 << i) != 0).enumerate() {
+                    if k % 2 == 0 {
+                        m |= 1 << i;
+                    }
+                }
+                m
+            }
+            _ => 0,
+        }
+    }
+
+    fn program(&self) -> String {
+        let fault = match &self.kind {
+            Kind::Prog { site, flavor } => Some((SITES[*site as usize], FLAVORS[*flavor as usize], self.cycle)),
+            _ => None,
+        };
+        let safe_in = (self.via == 1).then(|| (self.cycle, self.safe_set()));
+        program_text(fault, self.bind, safe_in)
+    }
+
     fn to_json(&self) -> J {
         let mut o = json!({
             "family": "rt",
@@ -308,6 +362,10 @@ impl Case {
         }
         if self.real != 0 {
             o["real_modbus_driver"] = json!(self.real);
+        }
+        if self.rel != 0 {
+            o["image_at_fault"] = json!(REL[self.rel as usize]);
+            o["image_set_by"] = json!(VIA[self.via as usize]);
         }
         o
     }
@@ -342,6 +400,8 @@ impl Case {
             cold: j["restart"].as_str()? == "cold",
             refused: j["refused_cycles"].as_u64()? as u8,
             real: j["real_modbus_driver"].as_u64().unwrap_or(0) as u8,
+            rel: REL.iter().position(|s| Some(*s) == j["image_at_fault"].as_str()).unwrap_or(0) as u8,
+            via: VIA.iter().position(|s| Some(*s) == j["image_set_by"].as_str()).unwrap_or(0) as u8,
         })
     }
 
@@ -720,6 +780,10 @@ fn check_safe(c: &Case, entries: &SafeEntries, io: Option<&IoInterface>, log: &[
         if second {
             return format!("second-fault/{entry}");
         }
+        if c.rel != 0 {
+            // the clean "opposite" stratum passes where this one fails: the relation is the cause
+            return format!("image-{}/{entry}", REL[c.rel as usize]);
+        }
         if missing.len() == of {
             return format!("{entry}/{none}");
         }
@@ -829,11 +893,7 @@ fn build_runtime(c: &Case, text: Option<&str>) -> Result<Runtime, String> {
     let src = match text {
         Some(t) => t,
         None => {
-            let fault = match &c.kind {
-                Kind::Prog { site, flavor } => Some((SITES[*site as usize], FLAVORS[*flavor as usize], c.cycle)),
-                _ => None,
-            };
-            generated = program_text(fault, c.bind);
+            generated = c.program();
             &generated
         }
     };
@@ -862,6 +922,7 @@ fn configure(rt: &mut Runtime, c: &Case, entries: &SafeEntries, shared: &Arc<Sha
     // the launcher sizes the images from the bindings: 2 input bytes (%IW0), 16 output bytes
     rt.io_mut().resize(2, if c.bind { 16 } else { 0 }, 0);
     preload_opposite(rt, c.bind)?;
+    rt.storage_mut().set_global("lsafe", Value::LWord(SHAPES[5].safe));
     let mut logging = make_drivers(c, shared).into_iter();
     for d in 1..=c.drivers {
         if d == c.real {
@@ -914,6 +975,18 @@ fn check_rt(c: &Case, entries: &SafeEntries, text: Option<&str>) -> Result<Outco
             }
         }
     }
+    // image relation set from outside: after the last publish, before the faulting call
+    if c.via == 2 || c.via == 3 {
+        for i in (0..SHAPES.len()).filter(|i| c.safe_set() & (1 << i) != 0) {
+            let (addr, val) = entries.good[i].clone();
+            if c.via == 2 {
+                rt.io_mut().write(&addr, val).map_err(|e| e.to_string())?;
+            } else {
+                let dbg = shared.debug.lock().unwrap().clone().ok_or("debug I/O write needs observers")?;
+                dbg.enqueue_io_write(addr, val);
+            }
+        }
+    }
     let fault: Result<RuntimeError, String> = match c.kind {
         Kind::Watchdog => catch(|| rt.watchdog_timeout()),
         Kind::Sim => catch(|| rt.simulation_fault("injected")),
@@ -961,6 +1034,41 @@ fn check_rt(c: &Case, entries: &SafeEntries, text: Option<&str>) -> Result<Outco
             return Ok(out);
         }
     }
+    if c.rel != 0 {
+        // The planned image relation must really have held when the fault arose.  Without a demanded
+        // safe state the image after the fault still shows it; with a program-written image the
+        // image the failing publish handed to the driver shows it.
+        let holds = |read: &dyn Fn(&IoAddress) -> Option<Value>| -> Option<String> {
+            for i in (0..SHAPES.len()).filter(|i| c.mask & (1 << i) != 0) {
+                let safe = c.safe_set() & (1 << i) != 0;
+                let want = if safe { entries.good[i].1.clone() } else { shape_value(i, SHAPES[i].opposite) };
+                let got = read(&entries.good[i].0);
+                if got.as_ref() != Some(&want) {
+                    return Some(format!("{} reads {got:?}, planned {want:?}", SHAPES[i].addr));
+                }
+            }
+            None
+        };
+        let bad = if !c.safe_demanded() {
+            holds(&|a| rt.io().read(a).ok())
+        } else if let (1, Kind::IoWrite(d)) = (c.via, &c.kind) {
+            let log = shared.log.lock().unwrap();
+            let img = log.iter().find_map(|e| match e {
+                Ev::Write { d: dd, n, image, .. } if dd == d && *n == c.cycle => Some(image.clone()),
+                _ => None,
+            });
+            match img {
+                Some(img) => holds(&|a| read_image(&img, a)),
+                None => Some("the failing publish was not logged".to_string()),
+            }
+        } else {
+            None
+        };
+        if let Some(why) = bad {
+            out.unplaced_why = format!("image relation {} (set by {}) did not hold at fault time: {why}", REL[c.rel as usize], VIA[c.via as usize]);
+            return Ok(out);
+        }
+    }
     out.placed = true;
 
     // ---- the fault has been reported (the call returned): latch + safe state
@@ -981,6 +1089,9 @@ fn check_rt(c: &Case, entries: &SafeEntries, text: Option<&str>) -> Result<Outco
         .filter(|d| log_at_report.iter().any(|e| matches!(e, Ev::Write { d: dd, n, .. } if dd == d && *n >= c.safe_write_index(*d))))
         .count();
     out.outcome_key = format!("{kind}/{}/demanded={}/delivered={delivered}of{}", out.fault_error, out.demanded, c.drivers);
+    if c.rel != 0 {
+        out.outcome_key.push_str(&format!("/image={}:{}", REL[c.rel as usize], VIA[c.via as usize]));
+    }
 
     // ---- every later cycle request is refused.  The refusal gate does not depend on the fault
     // kind, so these signatures carry none; the first anomaly of a case ends the case (everything
@@ -1066,11 +1177,11 @@ fn check_rt(c: &Case, entries: &SafeEntries, text: Option<&str>) -> Result<Outco
                         let (second, c2) = match first {
                             Err(e) => {
                                 let k2 = if c.fail_safe != 0 { Kind::IoWrite(c.fail_safe) } else { c.kind.clone() };
-                                (Ok(e), Case { kind: k2, ..c.clone() })
+                                (Ok(e), Case { kind: k2, rel: 0, via: 0, ..c.clone() })
                             }
                             Ok(()) => {
                                 preload_opposite(&mut rt, c.bind)?;
-                                (catch(|| rt.simulation_fault("second")), Case { kind: Kind::Sim, ..c.clone() })
+                                (catch(|| rt.simulation_fault("second")), Case { kind: Kind::Sim, rel: 0, via: 0, ..c.clone() })
                             }
                         };
                         let kind2 = c2.kind.class();
@@ -1161,7 +1272,7 @@ fn runner_plan(k: &RKind, cycle: u32, fp: u8, wa: u8, drivers: u8, fail_safe: u8
         RKind::SimCtl => Kind::Sim,
     };
     let cycle = if *k == RKind::SimCtl { cycle - 1 } else { cycle };
-    Case { kind, cycle, fp, wa, mask: FULL_MASK, bad: 0, drivers, fail_safe, obs: false, bind: true, cold: false, refused: 0, real: 0 }
+    Case { kind, cycle, fp, wa, mask: FULL_MASK, bad: 0, drivers, fail_safe, obs: false, bind: true, cold: false, refused: 0, real: 0, rel: 0, via: 0 }
 }
 
 fn check_runner(k: &RKind, c: &Case, entries: &SafeEntries) -> Result<Outcome, String> {
@@ -1390,7 +1501,7 @@ fn enumerate(tier: Tier, entries: &SafeEntries) -> Vec<Case> {
         for fp in 0..3u8 {
             for wa in 0..3u8 {
                 for &(drivers, fail_safe) in &DRIVER_SETS {
-                    push(Case { kind: kind.clone(), cycle, fp, wa, mask: FULL_MASK, bad: 0, drivers, fail_safe, obs: true, bind: true, cold: false, refused, real: 0 }, &mut cases);
+                    push(Case { kind: kind.clone(), cycle, fp, wa, mask: FULL_MASK, bad: 0, drivers, fail_safe, obs: true, bind: true, cold: false, refused, real: 0, rel: 0, via: 0 }, &mut cases);
                 }
             }
         }
@@ -1406,9 +1517,56 @@ fn enumerate(tier: Tier, entries: &SafeEntries) -> Vec<Case> {
                         for bind in [true, false] {
                             for cold in [false, true] {
                                 for &bad in bads {
-                                    push(Case { kind: kind.clone(), cycle: *cycle, fp, wa, mask: FULL_MASK, bad, drivers, fail_safe, obs, bind, cold, refused, real: 0 }, &mut cases);
+                                    push(Case { kind: kind.clone(), cycle: *cycle, fp, wa, mask: FULL_MASK, bad, drivers, fail_safe, obs, bind, cold, refused, real: 0, rel: 0, via: 0 }, &mut cases);
                                 }
                             }
+                        }
+                    }
+                }
+            }
+        }
+    }
+    // slice D: relation of the output image to the safe state at fault time x the fault kinds after
+    // which a driver can hold an older image than the runtime (2 logging drivers, nobody failing
+    // in the delivery).  already-safe: applying the map does not change the image, yet every driver
+    // must still be handed it; partially-safe: every second configured entry is already there.
+    //   program : the programs write the safe values in the faulting cycle; the publish of that
+    //             cycle fails at driver 1 (driver 2 never saw the image), at driver 2, or the
+    //             retain save fails after a complete publish (control: both drivers have it)
+    //   io_mut  : `io_mut().write` after the last publish, then a fault that precedes the next
+    //             publish (program/deadline/task-collect/io-read) or watchdog_timeout() /
+    //             simulation_fault() between cycles
+    //   debug   : debug I/O write queued before the faulting cycle (applied at its input latch)
+    {
+        let prog_sites: Vec<u8> = tier.pick(vec![0, 4, 17, 8], (0..SITES.len() as u8).collect());
+        let mut pts: Vec<(Kind, u32, u8)> = Vec::new();
+        for c in 0..=3u32 {
+            pts.push((Kind::Watchdog, c, 2));
+            pts.push((Kind::Sim, c, 2));
+        }
+        for c in 1..=3u32 {
+            pts.push((Kind::IoWrite(1), c, 1));
+            pts.push((Kind::IoWrite(2), c, 1));
+            pts.push((Kind::Retain, c, 1));
+            for via in [2u8, 3u8] {
+                pts.push((Kind::Deadline, c, via));
+                pts.push((Kind::Sched, c, via));
+                for &site in &prog_sites {
+                    pts.push((Kind::Prog { site, flavor: 0 }, c, via));
+                }
+            }
+            pts.push((Kind::IoRead(1), c, 2));
+            pts.push((Kind::IoRead(2), c, 2));
+        }
+        let singles: Vec<u8> = (0..SHAPES.len()).map(|i| 1u8 << i).collect();
+        let multi: [u8; 3] = [FULL_MASK, 0b00_1001, 0b11_0110];
+        for (kind, cycle, via) in &pts {
+            for fp in 0..3u8 {
+                for wa in 0..3u8 {
+                    for rel in [1u8, 2u8] {
+                        let masks: Vec<u8> = if rel == 1 { multi.iter().chain(singles.iter()).copied().collect() } else { multi.to_vec() };
+                        for mask in masks {
+                            push(Case { kind: kind.clone(), cycle: *cycle, fp, wa, mask, bad: 0, drivers: 2, fail_safe: 0, obs: true, bind: true, cold: false, refused, real: 0, rel, via: *via }, &mut cases);
                         }
                     }
                 }
@@ -1423,7 +1581,7 @@ fn enumerate(tier: Tier, entries: &SafeEntries) -> Vec<Case> {
             for fp in 0..3u8 {
                 for wa in 0..3u8 {
                     for &(drivers, fail_safe) in sets {
-                        push(Case { kind: kind.clone(), cycle: *cycle, fp, wa, mask, bad: 0, drivers, fail_safe, obs: true, bind: true, cold: false, refused, real: 0 }, &mut cases);
+                        push(Case { kind: kind.clone(), cycle: *cycle, fp, wa, mask, bad: 0, drivers, fail_safe, obs: true, bind: true, cold: false, refused, real: 0, rel: 0, via: 0 }, &mut cases);
                     }
                 }
             }
@@ -1461,7 +1619,7 @@ fn modbus_cases(refused: u8) -> Vec<(Case, &'static str)> {
         for on_error in ["fault", "warn", "ignore"] {
             for fp in 0..3u8 {
                 v.push((
-                    Case { kind: Kind::IoRead(real), cycle: 1, fp, wa: 1, mask: FULL_MASK, bad: 0, drivers: 2, fail_safe: real, obs: true, bind: true, cold: false, refused, real },
+                    Case { kind: Kind::IoRead(real), cycle: 1, fp, wa: 1, mask: FULL_MASK, bad: 0, drivers: 2, fail_safe: real, obs: true, bind: true, cold: false, refused, real, rel: 0, via: 0 },
                     on_error,
                 ));
             }
@@ -1512,7 +1670,7 @@ pub fn run(ctx: &Ctx) -> EngineResult {
 
     // skeleton sanity: the fault-free skeleton runs 4 cycles without a fault and executes every POU
     {
-        let c = Case { kind: Kind::Sim, cycle: 3, fp: 0, wa: 0, mask: 0, bad: 0, drivers: 1, fail_safe: 0, obs: false, bind: true, cold: false, refused: 0, real: 0 };
+        let c = Case { kind: Kind::Sim, cycle: 3, fp: 0, wa: 0, mask: 0, bad: 0, drivers: 1, fail_safe: 0, obs: false, bind: true, cold: false, refused: 0, real: 0, rel: 0, via: 0 };
         let shared = Arc::new(Shared::default());
         let mut rt = build_runtime(&c, None).map_err(Machinery)?;
         configure(&mut rt, &c, &entries, &shared, false, Duration::from_millis(1000)).map_err(Machinery)?;
@@ -1582,11 +1740,7 @@ pub fn run(ctx: &Ctx) -> EngineResult {
                     acc.fault_states.insert(out.fault_dump_hash);
                     if !out.bad.is_empty() {
                         let mut j = c.to_json();
-                        let fault = match &c.kind {
-                            Kind::Prog { site, flavor } => Some((SITES[*site as usize], FLAVORS[*flavor as usize], c.cycle)),
-                            _ => None,
-                        };
-                        j["program"] = json!(program_text(fault, c.bind));
+                        j["program"] = json!(c.program());
                         acc.viol.extend(to_violations(out, &j));
                     }
                 }
@@ -1628,7 +1782,7 @@ pub fn run(ctx: &Ctx) -> EngineResult {
         }
     }
     if !exhaustive {
-        rep.cap(format!("runtime family: wall cap reached, {skipped_chunks} of {} chunks of {chunk} cases not executed (cases are ordered slice A, B, C; C sweeps the safe-state maps simplest first)", chunks.len()));
+        rep.cap(format!("runtime family: wall cap reached, {skipped_chunks} of {} chunks of {chunk} cases not executed (cases are ordered slice A, B, D, C; C sweeps the safe-state maps simplest first)", chunks.len()));
     }
     if let Some(m) = mach.first() {
         return machinery(format!("{} cases could not be built: {m}", mach.len()));
@@ -1694,7 +1848,7 @@ pub fn run(ctx: &Ctx) -> EngineResult {
                 refused_checks += out.refused_checks;
                 outcomes.insert(format!("modbus/on_error=fault/{}", out.outcome_key));
                 let mut j = c.to_json();
-                j["program"] = json!(program_text(None, c.bind));
+                j["program"] = json!(c.program());
                 rep.violations_from(to_violations(out, &j));
             }
         }
@@ -1714,7 +1868,7 @@ pub fn run(ctx: &Ctx) -> EngineResult {
     rep.set("evaluations", evaluated + runner_evaluated + modbus_evaluated);
     rep.set("modbus_cases", modbus_evaluated);
     rep.set("distinct_nontrivial", nontrivial + runner_demanded);
-    rep.set("rule", "runtime family: union of three fully enumerated products: A = every fault point (8 fault kinds; program faults = 20 statement positions x {div-by-zero, index out of bounds, NULL deref} x cycle 1..3; driver/deadline/task-collect/retain faults x cycle 1..3; watchdog_timeout()/simulation_fault() after 0..3 cycles) x fault policy x watchdog action x 5 driver sets (1|2 logging drivers, optionally one failing from the safe-state delivery on), full safe-state map; B = fault points x policies x {2 drivers, 2 drivers with #1 failing} x observers on/off x outputs bound/unbound x warm/cold restart x unappliable wildcard entry none/first/last; C = fault points x policies x all 64 subsets of the 6 address shapes x driver sets (quick: B and C on 11 representative fault points; thorough: all 209). Every case builds a fresh Runtime from generated ST, runs it to the fault, through 2 (quick) / 3 (thorough) refused cycle requests, a restart, one more cycle and a second fault. runner family: ResourceRunner::spawn on a step clock for 5 fault kinds incl. the real watchdog and a scripted simulation fault. modbus family: the shipped ModbusTcpDriver (built from io.toml through the driver registry, peer = closed loopback port) as driver 1 or 2 of 2 x on_error fault|warn|ignore x fault policy. Cases are distinct tuples by construction (de-duplicated by hash); distinct_nontrivial = cases in which the planned fault occurred where planned, the governing policy demands the safe state and the map is non-empty (each compares >= 1 (address,value) in io() and in each driver's last image).");
+    rep.set("rule", "runtime family: union of four fully enumerated products: A = every fault point (8 fault kinds; program faults = 20 statement positions x {div-by-zero, index out of bounds, NULL deref} x cycle 1..3; driver/deadline/task-collect/retain faults x cycle 1..3; watchdog_timeout()/simulation_fault() after 0..3 cycles) x fault policy x watchdog action x 5 driver sets (1|2 logging drivers, optionally one failing from the safe-state delivery on), full safe-state map; B = fault points x policies x {2 drivers, 2 drivers with #1 failing} x observers on/off x outputs bound/unbound x warm/cold restart x unappliable wildcard entry none/first/last; D = image relation to the safe state at fault time {already-safe, partially-safe} (A-C: opposite) set by {the programs in the faulting cycle, io_mut().write after the last publish, a queued debug I/O write} x the fault kinds after which a driver can hold an older image (publish error of driver 1|2 of 2, retain-save error, and program/deadline/task-collect/io-read faults resp. watchdog_timeout()/simulation_fault() after such a write) x policies x 9 (already-safe) / 3 (partially-safe) maps, 2 drivers; C = fault points x policies x all 64 subsets of the 6 address shapes x driver sets (quick: B and C on 11 representative fault points; thorough: all 209). Every case builds a fresh Runtime from generated ST, runs it to the fault, through 2 (quick) / 3 (thorough) refused cycle requests, a restart, one more cycle and a second fault. runner family: ResourceRunner::spawn on a step clock for 5 fault kinds incl. the real watchdog and a scripted simulation fault. modbus family: the shipped ModbusTcpDriver (built from io.toml through the driver registry, peer = closed loopback port) as driver 1 or 2 of 2 x on_error fault|warn|ignore x fault policy. Cases are distinct tuples by construction (de-duplicated by hash); distinct_nontrivial = cases in which the planned fault occurred where planned, the governing policy demands the safe state and the map is non-empty (each compares >= 1 (address,value) in io() and in each driver's last image).");
     rep.set("runtime_cases", evaluated);
     rep.set("runner_cases", runner_evaluated);
     rep.set("cases_per_fault_kind", json!(per_kind));
